@@ -7,5 +7,5 @@ for d in "$@"; do
   echo "=== $d"
   rsync -a --delete --exclude /target --exclude .git /repo/ $S/
   [ "$d" = "-" ] || (cd $S && patch -p1 -s < "$(cd /verif; realpath "$d")") || { echo "  does not apply"; continue; }
-  XL_TARGET_DIR=/verif/.cache/target-rel-b bin/xl checkall --repo $S 2>/dev/null | grep -vE ": [0-9]+ results, 0 failing" | cut -c1-300
+  OUT_=$(XL_TARGET_DIR=/verif/.cache/target-rel-b bin/xl checkall --repo $S 2>/var/tmp/xl-try/err.log); N_=$(echo "$OUT_" | grep -cE ": [0-9]+ results"); echo "$OUT_" | grep -vE ": [0-9]+ results, 0 failing" | cut -c1-300; [ "$N_" -ge 17 ] || { echo "  CHECKALL INCOMPLETE ($N_/17 properties reported)"; tail -3 /var/tmp/xl-try/err.log; }
 done
